@@ -91,6 +91,26 @@ def _norm(s):
         return "".join(map(chr, cps))
 
 
+def _fast_text(s):
+    """LBytes.__init__ fast path (NORMALISE only): the text when `s` is a real or CrossHair str,
+    decided with tracing off (each traced isinstance() costs ~30 us); None for anything else"""
+    tr = _sys.modules.get("crosshair.tracers")
+    if tr is None:
+        return s if type(s) is str else None
+    with tr.NoTracing():
+        if type(s) is str:
+            return s
+        if type(s).__name__ != "LazyIntSymbolicStr":
+            return None
+        try:
+            cps = _flat(s._codepoints, 0, 1 << 60)
+        except Exception:  # noqa
+            return s
+        if cps is None:
+            return s
+        return "".join(map(chr, cps))
+
+
 _RANGES = {}
 
 
@@ -191,7 +211,10 @@ class _LBase:
             if len(self.s) > 3 and _is_conc(self.s) and not _is_conc(x):
                 return _ord_in(x, self.s)
             return chr(x) in self.s
-        return _s(x) in self.s
+        xs = _s(x)
+        if len(self.s) > 3 and _is_conc(self.s) and not _is_conc(xs) and len(xs) == 1:
+            return _ord_in(ord(xs), self.s)
+        return xs in self.s
 
     def __mod__(self, args):
         return LBytes(_fmt(self.s, args))
@@ -387,6 +410,8 @@ class _LBase:
 
     def decode(self, enc="utf-8", errors="strict"):
         e = enc.lower().replace("_", "-")
+        if e in CODECS and CODECS[e][1] is not None:
+            return CODECS[e][1](self.s, errors)
         if e in ("latin-1", "latin1", "iso-8859-1", "charmap"):
             return self.s
         if e in ("ascii", "us-ascii"):
@@ -414,6 +439,11 @@ class LBytes(_LBase):
     __slots__ = ()
 
     def __init__(self, s="", encoding=None, errors="strict"):
+        if NORMALISE and encoding is None:
+            r = _fast_text(s)
+            if r is not None:
+                self.s = r
+                return
         if isinstance(s, _LBase):
             s = s.s
         elif isinstance(s, (bytes, bytearray, memoryview)):
@@ -555,6 +585,8 @@ def l_int(x=0, base=None):
 def encode_text(t, enc="utf-8", errors="strict"):
     """str.encode in lifted code (call sites rewritten by the lift when asked)"""
     e = enc.lower().replace("_", "-")
+    if e in CODECS and CODECS[e][0] is not None:
+        return LBytes(CODECS[e][0](t, errors))
     if e in ("latin-1", "latin1", "iso-8859-1", "charmap"):
         for i, ch in enumerate(t):
             if ch > "\xff":
@@ -568,6 +600,63 @@ def encode_text(t, enc="utf-8", errors="strict"):
     if allascii and e in ("ascii", "us-ascii", "utf-8", "utf8", "charmap"):
         return LBytes(t)
     return LBytes(t.encode(enc, errors).decode("latin-1"))
+
+
+# pure-Python codec ports registered by props modules (C codecs realise symbolic text):
+# name -> (encode(text, errors) -> latin-1 text of the bytes | None, decode(latin-1 text, errors) -> text | None)
+CODECS = {}
+
+
+def _hexdigit(d, upper):
+    """ASCII code of hex digit d (0..15) by arithmetic only (no branch on a symbolic d)"""
+    return 48 + d + ((d + 6) // 16) * (7 if upper else 39)
+
+
+def fmt_int(v, spec):
+    """format(v, spec) for a non-negative int and spec = [0][width](x|X|d), digit by digit, so that a
+    symbolic v is not realised; anything else goes to format()"""
+    m = _re.fullmatch(r"(0?)(\d*)([xXd])", spec)
+    if m is None or _is_conc(v):
+        return format(v, spec)
+    if v < 0:
+        return format(v, spec)
+    return _fmt_int_arith(v, 10 if m.group(3) == "d" else 16, m.group(3) == "X", int(m.group(2) or 0),
+                          bool(m.group(1)))
+
+
+def _fmt_int_arith(v, base, upper, width, zero):
+    n = 1
+    lim = base
+    while v >= lim:          # one path per digit count
+        n += 1
+        lim *= base
+    out = []
+    for k in range(n - 1, -1, -1):
+        d = (v // (base ** k)) % base
+        out.append(chr(_hexdigit(d, upper)))
+    s = "".join(out)
+    if len(s) < width:
+        s = ("0" if zero else " ") * (width - n) + s
+    return s
+
+
+def l_fval(v, conversion, spec):
+    """one replacement field of a lifted f-string"""
+    if conversion == 115:
+        v = str(v)
+    elif conversion == 114:
+        v = repr(v)
+    elif conversion == 97:
+        v = ascii(v)
+    if isinstance(v, int) and not isinstance(v, bool) and spec != "":
+        return fmt_int(v, spec)
+    if isinstance(v, str) and spec == "":
+        return v
+    return format(v, spec)
+
+
+def l_fstr(*parts):
+    return "".join(parts)
 
 
 def _split_ws(s, maxsplit=-1):
@@ -1066,6 +1155,91 @@ class SymDict:
             self[k] = v
 
 
+# ---- bit operations on symbolic ints as integer arithmetic (lift(..., bitops=True)) -----------------
+# CrossHair sends & | ^ << >> on symbolic ints through Int<->BitVec conversions that z3 rarely
+# finishes.  These shims keep everything in linear integer arithmetic (div/mod by constants) and never
+# fork on bit values.  Non-int operands (sets, flags, type unions, bools) use the real operator.
+
+def _plain_int(x):
+    return isinstance(x, int) and not isinstance(x, bool)
+
+
+def _and_mask(a, mask):
+    """a & mask for a concrete mask >= 0 and any int a (Python floor semantics = two's complement)"""
+    if mask & (mask + 1) == 0:
+        return a % (mask + 1)
+    r = 0
+    i = 0
+    while mask >> i:
+        if (mask >> i) & 1:
+            r = r + ((a // (1 << i)) % 2) * (1 << i)
+        i += 1
+    return r
+
+
+def _bitwise_arith(kind, a, b, width):
+    """a <kind> b for 0 <= a, b < 2**width, bit by bit without branching"""
+    r = 0
+    for i in range(width):
+        p = 1 << i
+        sm = (a // p) % 2 + (b // p) % 2
+        if kind == "and":
+            r = r + p * (sm // 2)
+        elif kind == "or":
+            r = r + p * ((sm + 1) // 2)
+        else:
+            r = r + p * (sm % 2)
+    return r
+
+
+def _bitop(kind, a, b, real):
+    if not (_plain_int(a) and _plain_int(b)):
+        return real(a, b)
+    ca, cb = _is_conc(a), _is_conc(b)
+    if ca and cb:
+        return real(a, b)
+    if ca:
+        a, b, ca, cb = b, a, cb, ca
+    if cb and b >= 0:
+        if kind == "and":
+            return _and_mask(a, b)
+        if b == 0:
+            return a
+        if kind == "or":
+            return a + b - _and_mask(a, b)
+        return a + b - 2 * _and_mask(a, b)
+    if not cb:
+        for width in (8, 16, 32):
+            lim = 1 << width
+            if 0 <= a < lim and 0 <= b < lim:
+                return _bitwise_arith(kind, a, b, width)
+    return real(a, b)
+
+
+def l_bitand(a, b):
+    return _bitop("and", a, b, lambda x, y: x & y)
+
+
+def l_bitor(a, b):
+    return _bitop("or", a, b, lambda x, y: x | y)
+
+
+def l_bitxor(a, b):
+    return _bitop("xor", a, b, lambda x, y: x ^ y)
+
+
+def l_shl(a, n):
+    if _plain_int(a) and _plain_int(n) and _is_conc(n) and n >= 0 and not _is_conc(a):
+        return a * (1 << n)
+    return a << n
+
+
+def l_shr(a, n):
+    if _plain_int(a) and _plain_int(n) and _is_conc(n) and n >= 0 and not _is_conc(a):
+        return a // (1 << n)
+    return a >> n
+
+
 # ---- differential self-test against the real types (run on every lifted check) ---------------
 
 def selftest():
@@ -1152,9 +1326,33 @@ def selftest():
     io.write(LBytes("HE"))
     assert io.getvalue() == b"HEllo"
     n += 4
+    for v in list(range(0, 300)) + [4095, 4096, 65535, 65536, 99999, 100000]:
+        for spec in ("02X", "02x", "x", "X", "d", "3d", "03d", "4x", "04X"):
+            assert fmt_int(v, spec) == format(v, spec), (v, spec)
+            assert _fmt_int_arith(v, 10 if spec[-1] == "d" else 16, spec[-1] == "X", int(spec[:-1] or 0),
+                                  spec[0] == "0") == format(v, spec), (v, spec)
+            n += 1
+    assert l_fstr("+", l_fval(171, -1, "02X"), "z", l_fval("q", -1, ""), l_fval(5, 114, "")) == f"+{171:02X}z{'q'}{5!r}"
+    assert (LBytes("a") in LBytes("xyza")) and not (LBytes("b") in LBytes("xyza")) and (LBytes("za") in LBytes("xyza"))
+    n += 2
     for pat, x in [(rb"^[0-9a-f]+$", b"12af"), (rb"\s+", b"a  b\tc"), (rb"(\w+)=(\w*)", b"k=v; j=")]:
         want = _re.findall(pat, x)
         got = l_re.findall(LBytes(pat), LBytes(x))
         assert T(want) == T(got), (pat, x, want, got)
         n += 1
+    for a in (0, 1, 2, 3, 5, 63, 64, 127, 128, 192, 200, 255, 256, 4660, 49152, 65535, -1, -7, -256):
+        for m in (0, 1, 15, 63, 0x3F, 0xC0, 0xFF, 0xF0, 0x8001, 0xC000, 5):
+            assert _and_mask(a, m) == a & m, (a, m)
+            if a >= 0:
+                assert a + m - _and_mask(a, m) == a | m and a + m - 2 * _and_mask(a, m) == a ^ m, (a, m)
+                for w in (8, 16):
+                    if a < (1 << w) and m < (1 << w):
+                        assert _bitwise_arith("and", a, m, w) == a & m and _bitwise_arith("or", a, m, w) == a | m
+                        assert _bitwise_arith("xor", a, m, w) == a ^ m
+            n += 1
+        assert l_bitand(a, 15) == a & 15 and l_bitor(a, 16) == a | 16 and l_bitxor(a, 9) == a ^ 9
+        assert l_shl(a, 3) == a << 3 and l_shr(a, 3) == a >> 3 and a * 8 == a << 3 and a // 8 == a >> 3
+        n += 1
+    assert l_bitor({1}, {2}) == {1, 2} and l_bitand(True, False) is False
+    n += 1
     return n
